@@ -21,7 +21,7 @@ ASSUMPTIONS = ["auto_refresh is off here (deterministic); threaded refresh is C1
                "a frame taller than the screen under vertical_overflow='visible' cannot be cleared (documented): the "
                "no-remnant clause is not asserted after such a frame was drawn",
                "the terminal is modelled as xterm with ONLCR (rv/model/term.py)"]
-REQUIRED = ["mon.transcript", "mon.cursor_visible_after_stop", "mon.fault_runs", "mon.cleanup_after_fault",
+REQUIRED = ["mon.recovery_after_fault", "mon.transcript", "mon.cursor_visible_after_stop", "mon.fault_runs", "mon.cleanup_after_fault",
             "mon.screen_bytes"]
 MIN_NONTRIVIAL = {"quick": 300, "thorough": 20000}
 
@@ -134,9 +134,13 @@ def gen_history(rng, kind, H, n_ops):
         if r < 0.30:
             pi += 1
             ops.append(["print", ["p%d-%d" % (pi, k) for k in range(rng.choice([1, 1, 2, 3]))]])
-        elif r < 0.36:
+        elif r < 0.34:
             pi += 1
             ops.append(["log", "l%d" % pi])
+        elif r < 0.355:
+            ops.append(["print_empty", rng.choice(["print", "print", "log"])])
+        elif r < 0.36:
+            ops.append(["line", rng.choice([1, 1, 2])])
         elif r < 0.44:
             pi += 1
             ops.append(["pyprint", "y%d" % pi, rng.choice(["stdout", "stderr"])])
@@ -291,6 +295,19 @@ class Session:
             self.printed += plain_lines(self.W, [Text("\n".join(op[1]))])
             if self.live_on():
                 self._drew()
+        elif k == "print_empty":
+            # print() / log() without arguments: a blank line, like any other printed line
+            c.print() if op[1] == "print" else c.log()
+            self.printed.append("")
+            if self.live_on():
+                self._drew()
+        elif k == "line":
+            # Console.line(n): n blank lines, printed like any other line
+            c.line(op[1])
+            self.printed += [""] * op[1]
+            if self.live_on():
+                self.line_while_live = True
+                self._drew()
         elif k == "log":
             c.log(op[1])
             # expected through a twin that has seen the same log history (LogRender omits repeated timestamps)
@@ -399,7 +416,11 @@ class Session:
         want = self.expected()
         if got != want:
             kind = "screen-differs-from-printed-lines-plus-last-frame"
-            if getattr(self, "full_height_transient_stop", False) and len(got) > len(want) and all(w in got for w in want):
+            if getattr(self, "line_while_live", False):
+                # Console.line() writes its blank lines without passing the live display's render hook
+                kind = "blank-lines-of-console.line-written-below-the-live-frame"
+                self.exempt = True
+            elif getattr(self, "full_height_transient_stop", False) and len(got) > len(want) and all(w in got for w in want):
                 kind = "remnant-after-transient-stop-of-screen-filling-frame"
                 self.exempt = True      # the scrolled-off line stays: later comparisons would only repeat this
             elif len(got) > len(want) and all(w in got for w in want):
@@ -496,6 +517,30 @@ def run_with_fault(ctx, kind, cfg, ops, fail_render=None, fail_after_op=None, pr
         restore_std(saved)
         s.console.print("x")
         out["after_print"] = s.console.file.getvalue()[before:]
+        # recovery: the program catches the exception, prints, and starts the SAME display object again; what it
+        # printed in between stays, the new run draws below it (a fresh screen model from here on: a cursor that
+        # climbs out of the new region hits the top of it and is counted)
+        Flaky.fail_at[0] = None
+        try:
+            s.console.print("r1")
+            s.obj.start()
+            if kind == "live":
+                from rich.text import Text
+                s.obj.update(Text("g-0\ng-1"), refresh=True)
+            else:
+                s.obj.refresh()
+            s.console.print("r2")
+            s.obj.refresh()
+            s.obj.stop()
+            restore_std(saved)
+            scr = term.Screen(s.W, s.H)
+            scr.feed(s.console.file.getvalue()[before:])
+            lines = [l.strip() for l in scr.lines()]
+            marks = [l for l in lines if l in ("x", "r1", "r2")]
+            out["recovery"] = {"lines": lines[-12:], "marks": marks, "cursor_above_region": scr.cursor_above_top,
+                               "unknown": scr.unknown[:2]}
+        except (Boom, Interrupt) as e:
+            out["recovery"] = {"error": repr(e)}
         return out
     finally:
         Flaky.fail_at[0] = None
@@ -542,6 +587,17 @@ def wl_faults(ctx, rng, case_no):
             ctx.violation("console-buffer-still-nested-after-exception:%s:%s" % (kind, where), wit)
         elif not out["cursor_visible"]:
             ctx.violation("cursor-hidden-after-exception:%s:%s" % (kind, where), wit)
+        else:
+            rec = out.get("recovery") or {}
+            ntasks = sum(1 for o in list(pre_ops) + list(ops) if o[0] == "add_task")
+            if kind == "progress" and ntasks >= cfg["height"] - 1:
+                # a Progress frame as tall as (or taller than) the screen is not cropped; what then happens to the
+                # rows that scroll away is the histories workload's subject (and known finding), not this clause
+                ctx.count("recovery_not_judged:screen-filling-progress-frame")
+                rec = {"marks": ["x", "r1", "r2"]}
+            ctx.count("mon.recovery_after_fault")
+            if rec.get("error") or rec.get("marks") != ["x", "r1", "r2"] or rec.get("cursor_above_region"):
+                ctx.violation("restarted-display-damages-lines-printed-after-the-exception:%s:%s" % (kind, where), wit)
         ctx.hist("fault_kind", "%s/%s/%s/%s" % (kind, what, where, FAULT[0].__name__))
         ctx.case_done(("f", kind, repr(cfg), repr(ops), what, idx), True,
                       {"kind": kind, "ops": ops[:8], "fault": [what, idx], "renders_in_clean_run": R})
